@@ -218,6 +218,9 @@ def forcing_sites(ctx, rule="R13.3"):
     div = [s for s in ve.body if isinstance(s, ast.If) and ast.unparse(s.test) == "latlon" and any("geo_scale" in ast.unparse(x) for x in s.body)]
     ok = len(div) == 1 and [norm_stmt(x) for x in div[0].body] in (["bin_edges = bin_edges / geo_scale"], ["bin_edges /= geo_scale"])
     ctx.check(ok, rule, "variogram/variogram.py::vario_estimate", "bin edges are converted to radians (divided by geo_scale) iff lat-lon; the kernel's haversine works on the unit sphere", "bins-radian")
+    inplace = len(div) == 1 and any(isinstance(x, ast.AugAssign) for x in div[0].body)
+    ctx.check(not inplace, rule, "variogram/variogram.py::vario_estimate", "the conversion builds a new array: converting the caller's edges in place would convert them a second time when the same array "
+              "is passed again (np.asarray does not copy a float64 array)", "bins-radian-once")
     # bin centres stay in user units: computed before the division
     idx = {i: norm_stmt(s) for i, s in enumerate(ve.body)}
     i_div = [i for i, s in enumerate(ve.body) if s in div]
